@@ -57,7 +57,12 @@ def replica(net, dc):
         if dc:
             pp.rundcpp(n)
         else:
-            pp.runpp(n, calculate_voltage_angles=True, tolerance_mva=1e-9, init="dc")
+            try:
+                # start Newton at the reported state: with free voltages (no limits, controllable ext_grid) the OPF may
+                # sit at 2 p.u., which a flat start does not reach; a reported state that is no solution still moves away
+                pp.runpp(n, calculate_voltage_angles=True, tolerance_mva=1e-9, init="results")
+            except Exception:
+                pp.runpp(n, calculate_voltage_angles=True, tolerance_mva=1e-9, init="dc")
     except Exception as e:
         return None, type(e).__name__
     return n, "ok"
